@@ -460,6 +460,23 @@ EXTRA7 = {
  "C19": "The unconstrained spline functions are run in float32 at tail bounds 5-50.",
  "C20": "A list passed as the shape argument of split_leading_dim must be unchanged and reusable.",
 }
+EXTRA8 = {
+ "C01": "ADDED: C01_quadratic_whole_spline_logabsdet_is_log_derivative - the whole piecewise-quadratic spline (both height forms) is "
+        "differentiable at every interior point of its box, knots included, with derivative exp(log-abs-det). The catalogue includes "
+        "constructor arguments away from their defaults.",
+ "C03": "Flows over bases with log-std from -9 to 3 are integrated over +-14 standard deviations.",
+ "C04": "Class-conditional use with a 1-D tensor of labels as context is part of the pairing search.",
+ "C08": "CompositeCDFTransform is compared with the explicit composition after the squashing transform's parameter moved.",
+ "C09": "float32 inputs exactly on the rounded tail bound are part of the tails search.",
+ "C11": "Diagonal parameters far out (log-diagonals 18.5 / -17, unconstrained diagonals 30 / -25) are part of the accessor search.",
+ "C12": "Normalisation layers that never saw a training batch are evaluated row by row on a separate never-used instance.",
+ "C14": "Histories with evaluation before the initialising step are always included and every output is compared with the affine map "
+        "of the layer's current parameters.",
+ "C15": "Couplings whose masks are drawn at construction are saved and restored under another seed.",
+ "C18": "Integer, bool and half-precision contexts must give floating-point draws of the documented shape.",
+ "C19": "Bin counts nothing else uses are evaluated in a fixed order of precisions, with dtype checks in both directions.",
+ "C20": "The integer predicates are evaluated on integers up to 2^200.",
+}
 EXTRA5 = {
  "C01": "Every catalogue transform is also checked after it was evaluated and then given another checkpoint through load_state_dict.",
  "C03": "The one-dimensional flows are integrated once more as restored models (evaluated, then loaded with a perturbed state dict); "
@@ -488,6 +505,8 @@ for _pid, _t in EXTRA5.items():
 for _pid, _t in EXTRA6.items():
     CLAIMED[_pid]["text"] += " " + _t
 for _pid, _t in EXTRA7.items():
+    CLAIMED[_pid]["text"] += " " + _t
+for _pid, _t in EXTRA8.items():
     CLAIMED[_pid]["text"] += " " + _t
 for _pid, _t in EXTRA4.items():
     CLAIMED[_pid]["text"] += " " + _t
